@@ -372,6 +372,12 @@ class Machine:
                 nsegs = split_path(re.sub(r'<impl at [^>]*>', '<impl>', name))
                 if nsegs[-2:] == segs[-2:] or (len(segs) >= 2 and nsegs[-1] == segs[-1] and nsegs[-2] == segs[-2]):
                     return self.const(val[6:], fn)
+        # const items with a body in the dump (`const NAME: T = { ... }`, e.g. a const local to a function): by last segment
+        last = strip_generics(segs[-1]).strip() if segs else None
+        if last and re.fullmatch(r'[A-Z][A-Z0-9_]*', last):
+            cands = [val for name, val in self.prog.consts.items() if not isinstance(val, str) and split_path(name)[-1] == last]
+            if len(cands) == 1:
+                return self.call_fn(cands[0], [])
         # enum unit variants as constants, e.g. Option::<Infallible>::None
         v = self.try_variant(s, [])
         if v is not None:
